@@ -75,7 +75,7 @@ func isAttrGet(v ssa.Value, name string, ctxVal ssa.Value) bool {
 	}
 	n := calleeName(id)
 	if n == identPkgPath+".FromCtx" {
-		return ctxVal == nil || arg(id, 0) == ctxVal
+		return ctxVal == nil || arg(id, 0) == ctxVal || rv(arg(id, 0)) == ctxVal
 	}
 	return false
 }
@@ -93,7 +93,7 @@ func c04Guard(c *Ctx) {
 			return false
 		}
 		call, ok := b.(*ssa.Call)
-		return ok && calleeName(call) == secPkgPath+".getTunnel" && arg(call, 0) == ssa.Value(ctxP)
+		return ok && calleeName(call) == secPkgPath+".getTunnel" && rv(arg(call, 0)) == ssa.Value(ctxP)
 	}
 	isClientIP := func(v ssa.Value) bool { return isAttrGet(v, "clientIp", ctxP) }
 	g := GOr(
@@ -310,21 +310,22 @@ func c04Source(c *Ctx) {
 		if !isRoot || calleeName(root) != muxPkg+".NewRouter" {
 			c.Bad(rule, "main Use(EnrichContext) root", use.Pos(), "EnrichContext is not installed on the root router")
 		}
-		good := true
-		var bad ssa.Instruction
-		for _, ci := range callsIn(mainFn) {
-			n := calleeName(ci)
-			if !strings.Contains(n, muxPkg+".") || ci == ssa.CallInstruction(use) || n == muxPkg+".NewRouter" {
-				continue
-			}
-			if !dominatesInstr(use, ci.(ssa.Instruction)) {
-				good, bad = false, ci.(ssa.Instruction)
+		// gorilla/mux applies a router's middleware when a request matches (also in subrouters),
+		// so the order of Use and route registrations is irrelevant; what matters is that it is
+		// installed unconditionally before the server starts
+		good := false
+		nServe := 0
+		for _, ci := range callsTo(mainFn, "(*net/http.Server).ListenAndServe", "(*net/http.Server).ListenAndServeTLS") {
+			nServe++
+			good = dominatesInstr(use, ci.(ssa.Instruction))
+			if !good {
+				break
 			}
 		}
-		if good {
-			c.OK(rule, "main Use(EnrichContext) order", use.Pos(), "installed on the root router before every route is added")
+		if good && nServe > 0 {
+			c.OK(rule, "main Use(EnrichContext) order", use.Pos(), "installed on the root router on every path before the server starts")
 		} else {
-			c.Bad(rule, "main Use(EnrichContext) order", bad.Pos(), "a route is configured before EnrichContext is installed")
+			c.Bad(rule, "main Use(EnrichContext) order", use.Pos(), "EnrichContext is installed only on some paths before the server starts")
 		}
 		// the server must serve the root router
 		c.OKTrivial(rule, "main Use(EnrichContext) present", use.Pos(), "r.Use(web.EnrichContext)")
